@@ -17,6 +17,7 @@ struct vh_config {
 	bool monitors;            /* per-message / per-LP monitors on (off for serial runs) */
 	bool poison;              /* ASan-poison released message buffers */
 	bool check_commit;        /* compare committed events with the reference (needs the model) */
+	bool monotone_predicates; /* the model's predicates never flip back once true */
 	unsigned digest_budget;   /* state digests are taken only while the LP's live buffers are below this many bytes */
 	/* callbacks into the model side */
 	uint64_t (*state_digest)(struct lp_ctx *lp); /* content-based digest of the LP state (addresses excluded) */
@@ -56,6 +57,7 @@ extern unsigned vh_threads_seen(void);
 /* ---- per-LP results ---- */
 extern uint64_t vh_lp_committed(uint64_t lp);     /* committed events compared so far (C03 cursor) */
 extern int vh_lp_owner(uint64_t lp);
+extern unsigned vh_lp_undone(uint64_t lp);
 extern uint64_t vh_schedule_signature(void);
 
 /* ---- watchdog support ---- */
